@@ -37,6 +37,10 @@ OTHER = {"A": "B", "B": "A"}
 ADDR = {"A": 32, "B": 33}
 
 
+class HandshakeFailed(Exception):
+    """the real CONNECT / CC handshake did not establish the connection"""
+
+
 def spin(cond, what, timeout=10.0):
     t0 = time.time()
     while not cond():
@@ -90,13 +94,16 @@ class Pair:
         p = A.collect()
         self.handshake.append(str(p))
         B.dispatch(pdu.decode(pdu.encode(p)))
+        if len(sb.recv_queue) == 0:      # accept() would wait forever
+            raise HandshakeFailed("the CONNECT PDU did not reach the listening socket: %s" % self.handshake)
         sb2 = B.accept(sb)
         p = B.collect()
         self.handshake.append(str(p))
         A.dispatch(pdu.decode(pdu.encode(p)))
         t.join(10)
         if t.is_alive() or err:
-            raise Infra("dlc_pair: handshake failed %r" % err)
+            tco.TransmissionControlObject.close(sa)
+            raise HandshakeFailed("connect() did not complete: %r %s" % (err, self.handshake))
         B.close(sb)   # the listening socket is no longer needed
         self.L = {"A": A, "B": B}
         self.s = {"A": sa, "B": sb2}
